@@ -794,13 +794,13 @@ pub fn generate(ctx: &mut Ctx) {
         bound + 2
     ));
     // (3) random streams
-    for _ in 0..ctx.budget(2000, 11000) {
+    for _ in 0..ctx.budget(2000, 25000) {
         gen_hil(ctx);
     }
-    for _ in 0..ctx.budget(2500, 12000) {
+    for _ in 0..ctx.budget(2500, 25000) {
         gen_wq(ctx);
     }
-    for _ in 0..ctx.budget(2000, 11000) {
+    for _ in 0..ctx.budget(2000, 25000) {
         gen_zc(ctx);
     }
     // (4) malformed stream
